@@ -421,6 +421,156 @@ Definition src_fn_StateAnyTrans_output_at (start v sizes ntrans version i : N) :
       else Panic);
     Ok (Some t_6)).
 
+Definition src_fn_Str_start (self_string : list N) : option N :=
+  (Some 0).
+
+Definition src_fn_Str_is_match (self_string : list N) (pos : option N) : bool :=
+  (src_opt_eqb pos (Some (len self_string))).
+
+Definition src_fn_Str_can_match (self_string : list N) (pos : option N) : bool :=
+  (match pos with Some _ => true | None => false end).
+
+Definition src_fn_Str_accept (self_string : list N) (pos : option N) (byte : N) : res (option N) :=
+  match pos with
+  | Some pos_1 => (if (src_opt_eqb (nth_error self_string (N.to_nat pos_1)) (Some byte))
+      then (do t <- (if ((pos_1 + 1) <=? 18446744073709551615)
+          then (Ok (pos_1 + 1))
+          else Panic);
+        Ok (Some t))
+      else (Ok None))
+  | None => (Ok None)
+  end.
+
+Definition src_fn_Subsequence_start (self_subseq : list N) : N :=
+  0.
+
+Definition src_fn_Subsequence_is_match (self_subseq : list N) (state : N) : bool :=
+  (state =? (len self_subseq)).
+
+Definition src_fn_Subsequence_can_match (self_subseq : list N) (unused : N) : bool :=
+  true.
+
+Definition src_fn_Subsequence_will_always_match (self_subseq : list N) (state : N) : bool :=
+  (state =? (len self_subseq)).
+
+Definition src_fn_Subsequence_accept (self_subseq : list N) (state byte : N) : res N :=
+  if (state =? (len self_subseq))
+  then (Ok state)
+  else (do t <- (if (state <? (len self_subseq))
+      then (Ok state)
+      else Panic);
+    if ((state + (if (byte =? (List.nth (N.to_nat t) self_subseq 0)) then 1 else 0)) <=? 18446744073709551615)
+    then (Ok (state + (if (byte =? (List.nth (N.to_nat t) self_subseq 0)) then 1 else 0)))
+    else Panic).
+
+Definition src_fn_AlwaysMatch_start : unit :=
+  tt.
+
+Definition src_fn_AlwaysMatch_is_match (unused : unit) : bool :=
+  true.
+
+Definition src_fn_AlwaysMatch_can_match (unused : unit) : bool :=
+  true.
+
+Definition src_fn_AlwaysMatch_will_always_match (unused : unit) : bool :=
+  true.
+
+Definition src_fn_AlwaysMatch_accept (unused : unit) (unused_1 : N) : unit :=
+  tt.
+
+Definition src_fn_StartsWith_start (A : src_aut) : src_StartsWithStateKind A :=
+  (let inner := (src_start A) in
+      if (src_is_match A inner)
+      then (src_StartsWithStateKind_Done A)
+      else (src_StartsWithStateKind_Running A inner)).
+
+Definition src_fn_StartsWith_is_match (A : src_aut) (state : src_StartsWithStateKind A) : bool :=
+  match state with
+  | src_StartsWithStateKind_Done _ => true
+  | src_StartsWithStateKind_Running _ _ => false
+  end.
+
+Definition src_fn_StartsWith_can_match (A : src_aut) (state : src_StartsWithStateKind A) : bool :=
+  match state with
+  | src_StartsWithStateKind_Done _ => true
+  | src_StartsWithStateKind_Running _ inner => (src_can_match A inner)
+  end.
+
+Definition src_fn_StartsWith_will_always_match (A : src_aut) (state : src_StartsWithStateKind A) : bool :=
+  match state with
+  | src_StartsWithStateKind_Done _ => true
+  | src_StartsWithStateKind_Running _ _ => false
+  end.
+
+Definition src_fn_StartsWith_accept (A : src_aut) (state : src_StartsWithStateKind A) (byte : N) : src_StartsWithStateKind A :=
+  (match state with
+      | src_StartsWithStateKind_Done _ => (src_StartsWithStateKind_Done A)
+      | src_StartsWithStateKind_Running _ inner => (let next_inner := (src_accept A inner byte) in
+          if (src_is_match A next_inner)
+          then (src_StartsWithStateKind_Done A)
+          else (src_StartsWithStateKind_Running A next_inner))
+      end).
+
+Definition src_fn_Union_start (A B : src_aut) : ((src_St A) * (src_St B)) :=
+  ((src_start A), (src_start B)).
+
+Definition src_fn_Union_is_match (A B : src_aut) (state : ((src_St A) * (src_St B))) : bool :=
+  ((src_is_match A (fst state)) || (src_is_match B (snd state))).
+
+Definition src_fn_Union_can_match (A B : src_aut) (state : ((src_St A) * (src_St B))) : bool :=
+  ((src_can_match A (fst state)) || (src_can_match B (snd state))).
+
+Definition src_fn_Union_will_always_match (A B : src_aut) (state : ((src_St A) * (src_St B))) : bool :=
+  ((src_will_always_match A (fst state)) || (src_will_always_match B (snd state))).
+
+Definition src_fn_Union_accept (A B : src_aut) (state : ((src_St A) * (src_St B))) (byte : N) : ((src_St A) * (src_St B)) :=
+  ((src_accept A (fst state) byte), (src_accept B (snd state) byte)).
+
+Definition src_fn_Intersection_start (A B : src_aut) : ((src_St A) * (src_St B)) :=
+  ((src_start A), (src_start B)).
+
+Definition src_fn_Intersection_is_match (A B : src_aut) (state : ((src_St A) * (src_St B))) : bool :=
+  ((src_is_match A (fst state)) && (src_is_match B (snd state))).
+
+Definition src_fn_Intersection_can_match (A B : src_aut) (state : ((src_St A) * (src_St B))) : bool :=
+  ((src_can_match A (fst state)) && (src_can_match B (snd state))).
+
+Definition src_fn_Intersection_will_always_match (A B : src_aut) (state : ((src_St A) * (src_St B))) : bool :=
+  ((src_will_always_match A (fst state)) && (src_will_always_match B (snd state))).
+
+Definition src_fn_Intersection_accept (A B : src_aut) (state : ((src_St A) * (src_St B))) (byte : N) : ((src_St A) * (src_St B)) :=
+  ((src_accept A (fst state) byte), (src_accept B (snd state) byte)).
+
+Definition src_fn_Complement_start (A : src_aut) : src_St A :=
+  (src_start A).
+
+Definition src_fn_Complement_is_match (A : src_aut) (state : src_St A) : bool :=
+  (negb (src_is_match A state)).
+
+Definition src_fn_Complement_can_match (A : src_aut) (state : src_St A) : bool :=
+  (negb (src_will_always_match A state)).
+
+Definition src_fn_Complement_will_always_match (A : src_aut) (state : src_St A) : bool :=
+  (negb (src_can_match A state)).
+
+Definition src_fn_Complement_accept (A : src_aut) (state : src_St A) (byte : N) : src_St A :=
+  (src_accept A state byte).
+
+Definition src_fn_Ref_start (T : src_aut) : src_St T :=
+  (src_start T).
+
+Definition src_fn_Ref_is_match (T : src_aut) (state : src_St T) : bool :=
+  (src_is_match T state).
+
+Definition src_fn_Ref_can_match (T : src_aut) (state : src_St T) : bool :=
+  (src_can_match T state).
+
+Definition src_fn_Ref_will_always_match (T : src_aut) (state : src_St T) : bool :=
+  (src_will_always_match T state).
+
+Definition src_fn_Ref_accept (T : src_aut) (state : src_St T) (byte : N) : src_St T :=
+  (src_accept T state byte).
+
 Definition src_fn_Fst_new_too_short (len version root_addr : N) : bool :=
   (len <? 32).
 
